@@ -134,6 +134,20 @@ func genTableWorld(r *Rng, mix tableMix) *World {
 			op.K = "pclean"
 			p := pick(r, pool)
 			op.Pattern = p[:r.Range(1, len(p))]
+			if r.Pct(70) { // natural boundaries: right after a '/' or a parameter
+				var cuts []int
+				for i := 1; i <= len(p); i++ {
+					if p[i-1] == '/' || p[i-1] == '}' {
+						cuts = append(cuts, i)
+					}
+				}
+				if len(cuts) > 0 {
+					op.Pattern = p[:pick(r, cuts)]
+					if r.Pct(30) && !strings.HasSuffix(op.Pattern, "/") {
+						op.Pattern += "/"
+					}
+				}
+			}
 		case k < mix.pRemove+mix.pRemoveM+mix.pClean+mix.pPClean+mix.pUse:
 			op.K = "use"
 			mwN++
